@@ -78,8 +78,13 @@ func ReadTLVs(r *packet.Reader) (TLVs, error) {
 		tag := binary.BigEndian.Uint16(temp[:2])
 		length := binary.BigEndian.Uint16(temp[2:4])
 
-		// read left value
-		value := make([]byte, length)
+		// read left value; the declared length is untrusted, so the buffer is never sized beyond
+		// what is left to read (one octet more keeps the short-read path below as it was)
+		size := int(length)
+		if rest := r.Remaining(); size > rest {
+			size = rest + 1
+		}
+		value := make([]byte, size)
 		r.ReadBytes(value)
 		if e := r.Error(); e != nil {
 			if errors.Is(r.Error(), io.EOF) {
@@ -127,8 +132,13 @@ func ReadTLVs1(r *packet.Reader) TLVs {
 		tag := binary.BigEndian.Uint16(temp[:2])
 		length := binary.BigEndian.Uint16(temp[2:4])
 
-		// read left value
-		value := make([]byte, length)
+		// read left value; the declared length is untrusted, so the buffer is never sized beyond
+		// what is left to read (one octet more keeps the short-read path below as it was)
+		size := int(length)
+		if rest := r.Remaining(); size > rest {
+			size = rest + 1
+		}
+		value := make([]byte, size)
 		r.ReadBytes(value)
 		if e := r.Error(); e != nil {
 			if errors.Is(r.Error(), io.EOF) {
